@@ -50,7 +50,6 @@ type Result struct {
 	NontrivialIsOutcomes bool `json:"nontrivial_is_outcomes,omitempty"`
 }
 
-const maxViolationsKept = 40
 const maxOutcomesKept = 4000
 
 func NewResult() *Result {
@@ -75,17 +74,22 @@ func (r *Result) Sample(v any) {
 
 func (r *Result) Violate(part, class, msg string, c any) {
 	r.ViolationCount++
-	if len(r.Violations) < maxViolationsKept {
-		// keep at most a few per class so that rare classes are not crowded out
-		n := 0
-		for _, v := range r.Violations {
-			if v.Class == class {
-				n++
+	// keep at most a few per class (so that rare classes are never crowded out), preferring short
+	// messages (small witnesses)
+	n, longest := 0, -1
+	for i, v := range r.Violations {
+		if v.Class == class {
+			n++
+			if longest < 0 || len(v.Msg) > len(r.Violations[longest].Msg) {
+				longest = i
 			}
 		}
-		if n < 6 {
-			r.Violations = append(r.Violations, Violation{Part: part, Class: class, Msg: msg, Case: c})
-		}
+	}
+	v := Violation{Part: part, Class: class, Msg: msg, Case: c}
+	if n < 5 {
+		r.Violations = append(r.Violations, v)
+	} else if len(msg) < len(r.Violations[longest].Msg) {
+		r.Violations[longest] = v
 	}
 	r.Count("violations."+class, 1)
 }
@@ -117,8 +121,19 @@ func (r *Result) Merge(o *Result) {
 		}
 	}
 	for _, v := range o.Violations {
-		if len(r.Violations) < 4*maxViolationsKept {
+		n, longest := 0, -1
+		for i, w := range r.Violations {
+			if w.Class == v.Class {
+				n++
+				if longest < 0 || len(w.Msg) > len(r.Violations[longest].Msg) {
+					longest = i
+				}
+			}
+		}
+		if n < 8 {
 			r.Violations = append(r.Violations, v)
+		} else if len(v.Msg) < len(r.Violations[longest].Msg) {
+			r.Violations[longest] = v
 		}
 	}
 	r.NotExhaustive = append(r.NotExhaustive, o.NotExhaustive...)
